@@ -50,7 +50,7 @@ META = {
                  "TLC trace validation, race detector on a free-running child process",
 }
 
-NEED = ["list.players.iter", "list.players.step", "list.disconnectall.iter", "list.servers.iter", "list.servers.step",
+NEED = ["reg.register.enter", "reg.unregister.enter", "w.mid", "list.players.iter", "list.players.step", "list.disconnectall.iter", "list.servers.iter", "list.servers.step",
         "list.range.iter", "list.range.step", "reg.register.insert", "reg.unregister.locked",
         "srv.register.insert", "srv.unregister.delete", "sp.add.locked", "sp.remove.locked", "w.enter"]
 
@@ -166,7 +166,7 @@ def rj_key(rj):
     ev = bad.get("ev", "eof")
     if ev == "r.ret":
         what = "list" if "list" in bad else "count" if "count" in bad else "closed"
-        return "not-a-snapshot:%s:%s" % (head.get("kind"), what)
+        return "not-a-snapshot:%s:%s" % (bad.get("api") or head.get("kind"), what)
     return "%s:%s" % (ev, head.get("kind"))
 
 
@@ -215,9 +215,9 @@ def run(ctx):
         lambda: must_violate(ctx, "Listing_header.cfg", "header copied, iterated after unlock", "NoIterWriteOverlap"),
         lambda: must_violate(ctx, "Listing_header_snap.cfg", "header copied, iterated after unlock", "SnapshotAtomic"),
         lambda: ctx.tlc("Listing", "Listing_sched.cfg", workers=1, count=False, heap="3g",
-                        simulate=ctx.pick(200, 6000), depth=14).printed_json("SCHED"),
+                        simulate=ctx.pick(220, 6000), depth=16).printed_json("SCHED"),
         lambda: [] if ctx.quick else ctx.tlc("Listing", "Listing_sched2.cfg", workers=1, count=False, heap="3g",
-                                             simulate=2000, depth=20).printed_json("SCHED"),
+                                             simulate=2000, depth=24).printed_json("SCHED"),
     ])
     ctx.states += r.distinct
     ctx.transitions += r.generated
@@ -353,7 +353,7 @@ def run(ctx):
 
 def kind_of(scheds, n):
     """Mirror of kindFor in harness/c12 (which listing API run n used)."""
-    kinds = ["players.list", "servers.list", "sp.range", "players.count", "sp.len"]
+    kinds = ["players.list", "servers.list", "sp.range", "players.list", "players.count", "sp.len"]
     s = scheds[n]
     if s.get("kind"):
         return s["kind"]
